@@ -99,6 +99,9 @@ class RunA:
         self.ref_cache = {}
         self.want_meter = True
         self.mem_calls = 0
+        self.peekbuf = None
+        self.threaded = bool(trace.get('threaded'))
+        self.baton = None
         self.mem_peak_ratio = 0.0
         self.max_step_ratio = 0.0
 
@@ -138,12 +141,25 @@ class RunA:
             (self.n_calls & 7) == 0 or self.trace.get('mem_all'))
         if sample_mem:
             tracemalloc.start()
-        try:
-            status, val, steps = METER.run(lib.frame.unmarshal, buf, budget)
-        finally:
-            if sample_mem:
-                peak = tracemalloc.get_traced_memory()[1]
-                tracemalloc.stop()
+        if self.threaded:
+            # threaded population: the run as a whole is under one budget,
+            # the call itself is pre-emptible line by line
+            sample_mem = False
+            steps = 0
+            try:
+                val = lib.frame.unmarshal(buf)
+                status = 'ok'
+            except Exception as e:
+                val = e
+                status = 'exc'
+        else:
+            try:
+                status, val, steps = METER.run(lib.frame.unmarshal, buf,
+                                               budget)
+            finally:
+                if sample_mem:
+                    peak = tracemalloc.get_traced_memory()[1]
+                    tracemalloc.stop()
         self.n_steps += steps
         if len(buf):
             ratio = steps / len(buf)
@@ -249,13 +265,20 @@ class RunA:
                                           problems[0].split(' ')[0]],
                       '; '.join(problems), buf)
 
-    def probe_parts(self, buf, why):
+    def probe_parts(self, buf, why, c=None):
         """C20 clause 1 on a buffer state a socket reader passes through."""
         self.oracle('C20.peek')
         exp = (buf[0], int.from_bytes(buf[1:3], 'big'),
                int.from_bytes(buf[3:7], 'big')) if len(buf) >= 7 \
             else (0, 0, None)
-        for view, label in ((buf, 'whole'), (buf[:7], 'first7')):
+        # a socket reader may also keep ONE mutable buffer and refill it in
+        # place between peeks (recv_into): same object, new contents
+        holder = c if c is not None else self   # one buffer per reader
+        if getattr(holder, 'peekbuf', None) is None:
+            holder.peekbuf = bytearray()
+        holder.peekbuf[:] = buf[:64]
+        for view, label in ((buf, 'whole'), (buf[:7], 'first7'),
+                            (holder.peekbuf, 'reused-bytearray')):
             try:
                 got = lib.frame.frame_parts(view)
             except Exception as e:
@@ -298,7 +321,14 @@ class RunA:
         budget = STEP_BASE + STEP_PER_BYTE * len(data)
         if 'C08' not in self.props and budget > STEP_CAP_OTHER:
             budget = STEP_CAP_OTHER
-        status, val, steps = METER.run(lib.frame.unmarshal, data, budget)
+        if self.threaded:
+            try:
+                val = lib.frame.unmarshal(data)
+                status = 'ok'
+            except Exception as e:
+                val, status = e, 'exc'
+        else:
+            status, val, steps = METER.run(lib.frame.unmarshal, data, budget)
         ref = None
         if status == 'ok':
             try:
@@ -412,6 +442,8 @@ class RunA:
     # --------------------------------------------------------------- link
     def step_conn(self, c, now):
         """Deliver the next segment of connection c (one link event)."""
+        if self.baton is not None:
+            self.baton.point(None, 0)
         if c.deliveries in c.stalls:
             c.stalls.discard(c.deliveries)
             self.count(self.fired, 'stall')
@@ -604,7 +636,7 @@ class RunA:
         inc = c.inc
         inc.buf += seg
         if 'C20' in self.props:
-            self.probe_parts(inc.buf, 'A%d' % c.idx)
+            self.probe_parts(inc.buf, 'A%d' % c.idx, c)
         guard = 0
         while True:
             guard += 1
@@ -658,7 +690,7 @@ class RunA:
         inc = c.inc
         inc.buf += seg
         if 'C20' in self.props:
-            self.probe_parts(inc.buf, 'B%d' % c.idx)
+            self.probe_parts(inc.buf, 'B%d' % c.idx, c)
         while True:
             buf = inc.buf
             fi, rel = self.relation(c, buf)
@@ -737,7 +769,85 @@ class RunA:
             break
 
     # ------------------------------------------------------------- the run
+    def point(self, code, line):
+        # sys.monitoring LINE callback (installed by sim.world_b.install)
+        if self.baton is not None:
+            self.baton.point(code, line)
+
+    def execute_threaded(self):
+        """Every connection (producer: encode its frames; then its receiver)
+        runs in its own real thread; the baton scheduler pre-empts at pamqp
+        source lines as the trace says."""
+        from sim import sched, world_b
+        world_b.install()
+        METER.install()
+        cts = self.trace['conns']
+        n = len(cts)
+        self.baton = sched.Baton(n, self.trace, self.ev)
+        conns = [None] * n
+
+        def body(tid):
+            c = self.build_conn(tid, cts[tid])
+            conns[tid] = c
+            self.ev('conn', tid, c.recv, len(c.frames), len(c.stream))
+            guard = 0
+            while not c.done:
+                guard += 1
+                if guard > 2000000:
+                    raise RuntimeError('harness: connection never finished')
+                if not self.step_conn(c, 0):
+                    break
+
+        def safe_body(tid):
+            try:
+                body(tid)
+            except Violation:
+                self.baton.abort = True
+        METER.count = 0
+        METER.budget = 6000000
+        METER.tripped = False
+        METER.where = None
+        METER.last_loop = None
+        METER.active = True
+        world_b.CURRENT[0] = self
+        try:
+            self.baton.run([safe_body] * n)
+        finally:
+            world_b.CURRENT[0] = None
+            METER.active = False
+        self.n_steps = METER.count
+        for name, rep, tb in self.baton.errors:
+            if name == 'StepBudgetExceeded':
+                self.probe('run_aborted_by_step_budget')
+            else:
+                raise RuntimeError('harness: thread error %s\n%s' % (rep,
+                                                                     tb))
+        self.count(self.fired, 'preempt_inside_call',
+                   sum(1 for s_ in self.baton.switch_sigs
+                       if s_[2][0] != 'op-boundary'))
+        self.count(self.fired, 'switch_at_op_boundary',
+                   sum(1 for s_ in self.baton.switch_sigs
+                       if s_[2][0] == 'op-boundary'))
+        nontrivial = bool(self.oracle_evals) and any(
+            v for k, v in self.fired.items())
+        sig = hashlib.sha1(repr(self.baton.switch_sigs).encode()
+                           ).hexdigest()[:16]
+        return {
+            'digest': self.h.hexdigest(), 'violation': self.violation,
+            'fired': {k: v for k, v in self.fired.items() if v},
+            'probes': self.probes, 'oracles': self.oracle_evals,
+            'events': self.n_events, 'calls': self.n_calls,
+            'steps': self.n_steps, 'vtime': 0, 'nontrivial': nontrivial,
+            'mem_calls': 0, 'mem_peak_ratio': 0.0, 'max_step_ratio': 0.0,
+            'extra': {'schedule_signatures': {sig}
+                      if self.baton.switch_sigs else set(),
+                      'line_events': self.baton.step},
+            'log': self.log,
+        }
+
     def execute(self):
+        if self.threaded:
+            return self.execute_threaded()
         METER.install()
         conns = []
         heap = []
